@@ -489,31 +489,27 @@ class JSTypedArray(JSObject):
     _type_name = "TypedArray"
     _signed = False
 
-    def __init__(self, length: int = 0):
+    def __init__(self, length: int = 0, buffer=None, byte_offset: int = 0):
         super().__init__()
-        self._data = [0] * length
-        self._buffer = None
-        self._byte_offset = 0
+        # Every typed array is a view over an ArrayBuffer (its own by default)
+        self._length = length
+        if buffer is None:
+            buffer = JSArrayBuffer(length * self._element_size)
+        self._buffer = buffer
+        self._byte_offset = byte_offset
 
     @property
     def length(self) -> int:
-        return len(self._data)
+        return self._length
 
     def get_index(self, index: int):
-        if 0 <= index < len(self._data):
-            if self._buffer is not None:
-                # Read from buffer
-                return self._read_from_buffer(index)
-            return self._data[index]
+        if 0 <= index < self._length:
+            return self._read_from_buffer(index)
         return UNDEFINED
 
     def set_index(self, index: int, value) -> None:
-        if 0 <= index < len(self._data):
-            coerced = self._coerce_value(value)
-            self._data[index] = coerced
-            if self._buffer is not None:
-                # Write to buffer
-                self._write_to_buffer(index, coerced)
+        if 0 <= index < self._length:
+            self._write_to_buffer(index, self._coerce_value(value))
 
     def _read_from_buffer(self, index: int):
         """Read a value from the underlying buffer."""
@@ -547,7 +543,7 @@ class JSTypedArray(JSObject):
         return int(value) if isinstance(value, (int, float)) else 0
 
     def __repr__(self) -> str:
-        return f"{self._type_name}({self._data})"
+        return f"{self._type_name}({[self.get_index(i) for i in range(self._length)]})"
 
 
 class JSInt32Array(JSTypedArray):
